@@ -1,14 +1,385 @@
-import LinOp.C08.Model
+import LinOp.C08.Proofs5
+import LinOp.C08.Known
 import LinOp.Generated.C08Consts
 /-!
-C08 — conjugate gradients.  Property theorems only (stub while the harness is brought up).
+C08 — conjugate gradients converges to the solution and returns true Lanczos matrices.
+Property theorems only.  `N : NumOps α` with `Lawful N` is the scalar interface over a linearly ordered
+field with square roots (e.g. `ℝ` with `Real.sqrt`); `s : Sys α n` is one system column with its
+`matmul_closure` (`s.amul`) and preconditioner (`s.pre`); `colStep` is one pass through the loop body of
+`linear_cg` for that column, `iterCol … k` is `k` passes, `linearCg` the whole call on all columns.
+The model (LinOp/C08/Model.lean) mirrors the source statement by statement; its thresholds are the
+generated constants pinned below; the harness compares it with the real `linear_cg` on every run.
 -/
+set_option linter.unusedSectionVars false
 namespace LinOp.C08
 
-/-- The thresholds of the source are the documented ones. -/
+variable {α : Type} [Field α] [LinearOrder α] [IsStrictOrderedRing α]
+
+/-! ### generated facts about the source -/
+
+/-- The thresholds and defaults of the source are the ones the property statement names
+(`eps = stop_updating_after = 1e-10`, early-stop floor 10, tridiagonal switch-off `1e-6`,
+`max_cg_iterations = 1000`, `max_lanczos_quadrature_iterations = 20`, `cg_tolerance = 1`,
+`terminate_cg_by_size` off). -/
 theorem generated_thresholds :
     Generated.C08.eps = 1 / 10000000000 ∧ Generated.C08.stopUpdatingAfter = 1 / 10000000000 ∧
-    Generated.C08.iterFloor = 10 ∧ Generated.C08.triOff = 1 / 1000000 := by
+    Generated.C08.iterFloor = 10 ∧ Generated.C08.iterFloorFound = true ∧
+    Generated.C08.triOff = 1 / 1000000 ∧ Generated.C08.maxCgIterations = 1000 ∧
+    Generated.C08.maxLanczosQuadratureIterations = 20 ∧ Generated.C08.cgTolerance = 1 ∧
+    Generated.C08.terminateCgBySize = "False" ∧ Generated.C08.nTridiagDefault = 0 := by
   decide +kernel
+
+/-- Hypotheses `0 < eps`, `0 < stop_updating_after` of the theorems below hold for the defaults, and the
+default tridiagonal budget does not exceed the default iteration budget (no spurious `RuntimeError`). -/
+theorem generated_hypotheses :
+    0 < Generated.C08.eps ∧ 0 < Generated.C08.stopUpdatingAfter ∧ 0 < Generated.C08.triOff ∧
+    Generated.C08.maxLanczosQuadratureIterations ≤ Generated.C08.maxCgIterations := by
+  decide +kernel
+
+/-- The statements of the source that the model mirrors are the ones it was written against:
+both kernels mask `alpha` by `has_converged` after the safe division, the residual norm is masked by
+`rhs_is_zero`, the stopping rule and the tridiagonal guard have the modelled form, and
+`LinearOperator._solve` passes the two settings as limits. -/
+theorem generated_structure :
+    Generated.C08.kernelNoPrecond =
+      ["torch.mul(curr_conjugate_vec, mvms, out=mul_storage)",
+       "torch.sum(mul_storage, dim=-2, keepdim=True, out=alpha)",
+       "torch.lt(alpha, eps, out=is_zero)", "alpha.masked_fill_(is_zero, 1)",
+       "torch.div(residual_inner_prod, alpha, out=alpha)", "alpha.masked_fill_(is_zero, 0)",
+       "alpha.masked_fill_(has_converged, 0)", "torch.addcmul(residual, -alpha, mvms, out=residual)",
+       "precond_residual = residual.clone()",
+       "_jit_linear_cg_updates(result, alpha, residual_inner_prod, eps, beta, residual, precond_residual, mul_storage, is_zero, curr_conjugate_vec)"] ∧
+    Generated.C08.precondBranch =
+      ["torch.mul(curr_conjugate_vec, mvms, out=mul_storage)",
+       "torch.sum(mul_storage, -2, keepdim=True, out=alpha)",
+       "torch.lt(alpha, eps, out=is_zero)", "alpha.masked_fill_(is_zero, 1)",
+       "torch.div(residual_inner_prod, alpha, out=alpha)", "alpha.masked_fill_(is_zero, 0)",
+       "alpha.masked_fill_(has_converged, 0)",
+       "residual = torch.addcmul(residual, alpha, mvms, value=-1, out=residual)",
+       "precond_residual = preconditioner(residual)",
+       "_jit_linear_cg_updates(result, alpha, residual_inner_prod, eps, beta, residual, precond_residual, mul_storage, is_zero, curr_conjugate_vec)"] ∧
+    Generated.C08.kernel =
+      ["result = torch.addcmul(result, alpha, curr_conjugate_vec, out=result)",
+       "beta.resize_as_(residual_inner_prod).copy_(residual_inner_prod)",
+       "torch.mul(residual, precond_residual, out=mul_storage)",
+       "torch.sum(mul_storage, -2, keepdim=True, out=residual_inner_prod)",
+       "torch.lt(beta, eps, out=is_zero)", "beta.masked_fill_(is_zero, 1)",
+       "torch.div(residual_inner_prod, beta, out=beta)", "beta.masked_fill_(is_zero, 0)",
+       "curr_conjugate_vec.mul_(beta).add_(precond_residual)"] ∧
+    Generated.C08.postKernel =
+      ["torch.norm(residual, 2, dim=-2, keepdim=True, out=residual_norm)",
+       "residual_norm.masked_fill_(rhs_is_zero, 0)",
+       "torch.lt(residual_norm, stop_updating_after, out=has_converged)"] ∧
+    Generated.C08.stopRule =
+      "k >= min(10, max_iter - 1) and bool(residual_norm.mean() < tolerance) and (not (n_tridiag and k < min(n_tridiag_iter, max_iter - 1)))" ∧
+    Generated.C08.stopBody = ["tolerance_reached = True", "break"] ∧
+    Generated.C08.triGuard = "n_tridiag and k < n_tridiag_iter and update_tridiag" ∧
+    Generated.C08.mvms = "mvms = matmul_closure(curr_conjugate_vec)" ∧
+    Generated.C08.loopIter = "range(n_iter)" ∧
+    Generated.C08.solveCall =
+      "utils.linear_cg(self._matmul, rhs, n_tridiag=num_tridiag, max_iter=settings.max_cg_iterations.value(), max_tridiag_iter=settings.max_lanczos_quadrature_iterations.value(), preconditioner=preconditioner)" := by
+  decide +kernel
+
+/-! ### one iteration -/
+
+/-- **The modelled step is the textbook PCG step** while the column is not frozen, `pᵀAp ≥ eps` and
+`rᵀz ≥ eps`: `x' = x + a p`, `r' = r − a A p` with `a = rᵀz / pᵀAp`; `z' = M⁻¹ r'` (or `r'` without
+preconditioner); `p' = z' + b p` with `b = r'ᵀz' / rᵀz`.  Both kernels (`precond` on/off) agree on this. -/
+theorem cg_step_is_textbook {N : NumOps α} (hN : Lawful N) (P : Params α) {n : Nat} (s : Sys α n) (iz : Bool)
+    (c : Col α n) (hc : c.conv = false) (hp : ¬ dot c.p (s.amul c.p) < P.eps) (hz : ¬ c.rz < P.eps) :
+    let a := c.rz / dot c.p (s.amul c.p)
+    let c' := colStep N P s iz c
+    c'.x = c.x + a • c.p ∧ c'.r = c.r - a • s.amul c.p ∧
+    c'.z = (if P.precond then s.pre c'.r else c'.r) ∧ c'.rz = dot c'.r c'.z ∧
+    c'.beta = c'.rz / c.rz ∧ c'.p = c'.z + (c'.rz / c.rz) • c.p ∧ c'.alpha = a := by
+  intro a c'
+  have ha : alphaF N P s c = a := alphaF_regular hN P s c hc hp
+  have hb : c'.beta = c'.rz / c.rz := by
+    have : N.lt c.rz P.eps = false := (hN.lt_false _ _).mpr hz
+    show (colStep N P s iz c).beta = (colStep N P s iz c).rz / c.rz
+    rw [colStep_beta, this]; simp
+  refine ⟨by rw [colStep_x, ha], by rw [colStep_r, ha], colStep_z N P s iz c, colStep_rz N P s iz c, hb, ?_,
+    by rw [colStep_alpha, ha]⟩
+  rw [colStep_p, hb]
+
+/-- **Recurrence residual = true residual, for every iteration count**: with a linear
+`matmul_closure`, the `residual` the loop carries is `b̂ − A x_k` after any number `k` of iterations
+(any mix of regular, safe-division and frozen steps), where `b̂` is the normalised right-hand side. -/
+theorem cg_residual_invariant (N : NumOps α) (P : Params α) {n : Nat} {s : Sys α n} (hA : Lin s.amul)
+    (iz : Bool) (k : Nat) :
+    (iterCol N P s iz k (initCol N P s (prep N P s))).r
+      = (prep N P s).b - s.amul (iterCol N P s iz k (initCol N P s (prep N P s))).x :=
+  iterCol_residual N P hA _ iz _ (initCol_residual N P s) k
+
+/-- **Zero right-hand side and zero guess give zero**, for every iteration budget `k`, every
+preconditioner with `M⁻¹0 = 0`, either kernel: the un-normalised result `x_k · rhs_norm` is `0`. -/
+theorem cg_zero_rhs {N : NumOps α} (hN : Lawful N) (P : Params α) (he : 0 < P.eps) {n : Nat} {s : Sys α n}
+    (hA : Lin s.amul) (hM : s.pre 0 = 0) (hr : s.rhs = 0) (hx : s.x0 = 0) (k : Nat) :
+    (fun i => (iterCol N P s (prep N P s).isZero k (initCol N P s (prep N P s))).x i * (prep N P s).nrm)
+      = (0 : Vec α n) := by
+  obtain ⟨hg, hr0, _⟩ := prep_zero hN P he hA hr hx
+  have h0 := iterCol_zero hN P he hA hM (prep N P s).isZero _ (initCol_zero (N := N) P hM (prep N P s) hg hr0) k
+  funext i
+  simp [h0.1]
+
+/-- **Scaling law through the normalisation**: multiplying a right-hand-side column and its initial
+guess by `c > 0` (both norms staying `≥ eps`) leaves the normalised problem — hence every later state of
+the column, every stopping decision and the tridiagonal entries — unchanged and multiplies `rhs_norm`,
+by which the result is finally multiplied, by `c`.  So `x(c·b) = c·x(b)`. -/
+theorem cg_scaling {N : NumOps α} (hN : Lawful N) (P : Params α) (he : 0 < P.eps) {n : Nat} (s : Sys α n)
+    (c : α) (hc : 0 < c) (h1 : ¬ norm2 N s.rhs < P.eps) (h2 : ¬ c * norm2 N s.rhs < P.eps) (k : Nat) :
+    (fun i => (iterCol N P (scaleSys c s) (prep N P (scaleSys c s)).isZero k
+                (initCol N P (scaleSys c s) (prep N P (scaleSys c s)))).x i * (prep N P (scaleSys c s)).nrm)
+      = c • fun i => (iterCol N P s (prep N P s).isZero k (initCol N P s (prep N P s))).x i * (prep N P s).nrm := by
+  rw [prep_scale hN P he s c hc h1 h2]
+  funext i
+  simp only [Pi.smul_apply, smul_eq_mul]
+  have : ∀ (q : Prep α n) (m : Nat) (c0 : Col α n), iterCol N P (scaleSys c s) q.isZero m c0 = iterCol N P s q.isZero m c0 := by
+    intro q m c0
+    induction m with
+    | zero => rfl
+    | succ m ih => simp only [iterCol, ih]; rfl
+  rw [this]
+  show (iterCol N P s (prep N P s).isZero k (initCol N P s { prep N P s with nrm := c * (prep N P s).nrm })).x i * (c * (prep N P s).nrm) = _
+  have hinit : initCol N P s { prep N P s with nrm := c * (prep N P s).nrm } = initCol N P s (prep N P s) := rfl
+  rw [hinit]; ring
+
+/-- **Converged columns stop changing**: once `has_converged` is set for a column (initially or after
+any iteration), its iterate and residual are the same after every further iteration, and it stays
+converged (`0 < stop_updating_after`). -/
+theorem cg_frozen_fixed {N : NumOps α} (hN : Lawful N) (P : Params α) (hs : 0 < P.stopAfter) {n : Nat}
+    (s : Sys α n) (iz : Bool) (c : Col α n)
+    (hreach : c = initCol N P s (prep N P s) ∨ ∃ c₀, c = colStep N P s iz c₀)
+    (hconv : c.conv = true) (k : Nat) :
+    (iterCol N P s iz k c).x = c.x ∧ (iterCol N P s iz k c).r = c.r ∧ (iterCol N P s iz k c).conv = true := by
+  have hf : Frozen N P iz c := by
+    rcases hreach with h | ⟨c₀, h⟩
+    · subst h; exact frozen_of_init N P s _ iz hconv
+    · subst h; exact frozen_of_step N P s iz c₀ hconv
+  obtain ⟨h1, h2, h3⟩ := iterCol_frozen hN P hs s iz c hf k
+  exact ⟨h1, h2, h3.1⟩
+
+/-- **A-norm error never increases, step by step** (`A` symmetric linear, `A x* = b̂`): a regular step
+(column not frozen, `pᵀAp ≥ eps > 0`) keeps the invariant (`r = b̂ − A x`, `pᵀr = rᵀz`), makes the new
+residual orthogonal to the old direction, and lowers `‖x* − x‖²_A` by exactly `(rᵀz)²/pᵀAp ≥ 0`. -/
+theorem cg_Anorm_step {N : NumOps α} (hN : Lawful N) (P : Params α) (he : 0 < P.eps) {n : Nat} {s : Sys α n}
+    (hA : LinSym s.amul) (xs b : Vec α n) (hxs : s.amul xs = b) (iz : Bool) (c : Col α n)
+    (hc : c.conv = false) (hp : ¬ dot c.p (s.amul c.p) < P.eps) (hI : Inv s b c) :
+    Inv s b (colStep N P s iz c) ∧ dot c.p (colStep N P s iz c).r = 0 ∧
+      errA s xs (colStep N P s iz c).x = errA s xs c.x - c.rz ^ 2 / dot c.p (s.amul c.p) ∧
+      errA s xs (colStep N P s iz c).x ≤ errA s xs c.x := by
+  obtain ⟨h1, h2, h3⟩ := colStep_regular hN P he hA xs b hxs iz c hc hp hI
+  refine ⟨h1, h2, h3, ?_⟩
+  rw [h3]
+  have hpos : 0 < dot c.p (s.amul c.p) := lt_of_lt_of_le he (not_lt.mp hp)
+  have : 0 ≤ c.rz ^ 2 / dot c.p (s.amul c.p) := div_nonneg (sq_nonneg _) hpos.le
+  linarith
+
+/-- **A-norm error is non-increasing in the iteration budget**: if the first `k` iterations of a column
+are regular steps or the column is frozen (`has_converged`) — i.e. no step hit the `pᵀAp < eps` safe
+division, the accuracy floor of the property statement — then `‖x* − x_{j+1}‖_A ≤ ‖x* − x_j‖_A` for all
+`j < k`, for every `n`, every preconditioner closure, either kernel.
+(Steps with `pᵀAp < eps` leave `x` unchanged too, but break `pᵀr = rᵀz` for the steps after them.) -/
+theorem cg_Anorm_monotone {N : NumOps α} (hN : Lawful N) (P : Params α) (he : 0 < P.eps) (hs : 0 < P.stopAfter)
+    {n : Nat} {s : Sys α n} (hA : LinSym s.amul) (xs : Vec α n) (hxs : s.amul xs = (prep N P s).b) (k : Nat)
+    (hreg : ∀ j < k, let c := iterCol N P s (prep N P s).isZero j (initCol N P s (prep N P s))
+      c.conv = true ∨ ¬ dot c.p (s.amul c.p) < P.eps) :
+    ∀ j < k, errA s xs (iterCol N P s (prep N P s).isZero (j + 1) (initCol N P s (prep N P s))).x
+      ≤ errA s xs (iterCol N P s (prep N P s).isZero j (initCol N P s (prep N P s))).x := by
+  set iz := (prep N P s).isZero
+  set c0 := initCol N P s (prep N P s)
+  -- invariant: either the column is frozen or `Inv` holds
+  have key : ∀ j ≤ k, Frozen N P iz (iterCol N P s iz j c0) ∨ Inv s (prep N P s).b (iterCol N P s iz j c0) := by
+    intro j
+    induction j with
+    | zero => intro _; right; exact initCol_inv N P s
+    | succ j ih =>
+      intro hj
+      have hjk : j < k := hj
+      rcases ih (Nat.le_of_lt hjk) with hf | hi
+      · left; exact (colStep_frozen hN P hs s iz _ hf).2.2
+      · cases hcv : (iterCol N P s iz j c0).conv
+        · rcases hreg j hjk with h | h
+          · rw [hcv] at h; cases h
+          · right; exact (colStep_regular hN P he hA xs _ hxs iz _ hcv h hi).1
+        · left
+          have hfj : Frozen N P iz (iterCol N P s iz j c0) := by
+            cases j with
+            | zero => exact frozen_of_init N P s _ iz hcv
+            | succ j' => exact frozen_of_step N P s iz _ hcv
+          exact (colStep_frozen hN P hs s iz _ hfj).2.2
+  intro j hj
+  rcases key j (Nat.le_of_lt hj) with hf | hi
+  · have := (colStep_frozen hN P hs s iz _ hf).1
+    show errA s xs (colStep N P s iz (iterCol N P s iz j c0)).x ≤ _
+    rw [this]
+  · cases hcv : (iterCol N P s iz j c0).conv
+    · rcases hreg j hj with h | h
+      · rw [hcv] at h; cases h
+      · exact (cg_Anorm_step hN P he hA xs _ hxs iz _ hcv h hi).2.2.2
+    · have hfj : Frozen N P iz (iterCol N P s iz j c0) := by
+        cases j with
+        | zero => exact frozen_of_init N P s _ iz hcv
+        | succ j' => exact frozen_of_step N P s iz _ hcv
+      have := (colStep_frozen hN P hs s iz _ hfj).1
+      show errA s xs (colStep N P s iz (iterCol N P s iz j c0)).x ≤ _
+      rw [this]
+
+/-- **Local orthogonality and conjugacy** (`A` and the preconditioner symmetric): along regular steps with
+unmasked `β` (`rᵀz ≥ eps`) consecutive residuals are `M⁻¹`-orthogonal, `r_{k+1}ᵀ z_k = 0`, consecutive
+directions are `A`-conjugate, `p_{k+1}ᵀ A p_k = 0`, and the invariant `Inv2` (true residual, `pᵀr = rᵀz`,
+`z = M⁻¹r`, `zᵀAp = pᵀAp`) propagates — for every `n`, either kernel.  It holds initially (`initCol_inv2`).
+Full claim of DESIGN `cg_invariants` (`r_iᵀ M⁻¹ r_j = 0`, `p_iᵀ A p_j = 0` for ALL `i < j`) is not closed:
+it needs the history-indexed induction over all earlier directions; what is proved is the `j = i + 1` case,
+which is what the A-norm decrease and the three-term relation use. -/
+theorem cg_orthogonality_partial {N : NumOps α} (hN : Lawful N) (P : Params α) (he : 0 < P.eps) {n : Nat}
+    {s : Sys α n} (hA : LinSym s.amul) (hM : ∀ u v, dot u (preF P s v) = dot (preF P s u) v)
+    (xs b : Vec α n) (hxs : s.amul xs = b) (iz : Bool) (c : Col α n)
+    (hc : c.conv = false) (hp : ¬ dot c.p (s.amul c.p) < P.eps) (hz : ¬ c.rz < P.eps) (hI : Inv2 P s b c) :
+    Inv2 P s b (colStep N P s iz c) ∧ dot (colStep N P s iz c).r c.z = 0 ∧
+      dot (colStep N P s iz c).p (s.amul c.p) = 0 :=
+  colStep_conjugate hN P he hA hM xs b hxs iz c hc hp hz hI
+
+/-! ### the whole call -/
+
+/-- **No NumericalWarning ⇒ tolerance met**: if `linear_cg` returns without the warning then either no
+iteration ran, or the loop left through the tolerance test, i.e. the mean over all columns of the
+(masked) relative residual norms it reports is `< tolerance`.  Any scalar type, any closures. -/
+theorem cg_no_warning_implies_tol {β : Type} [Add β] [Sub β] [Mul β] [Div β] [Neg β] [Zero β] [One β]
+    (N : NumOps β) (P : Params β) {n : Nat} (sys : List (Sys β n)) (o : Out β n)
+    (h : linearCg N P sys = .ok o) (hw : o.warn = false) :
+    o.iters = 0 ∨ N.lt (mean o.rns) P.tol = true := by
+  rw [linearCg_ok N P sys o h] at hw ⊢
+  exact linearCgCore_no_warning N P sys hw
+
+/-- **The whole call is column-wise CG**: every column of the solution returned by `linear_cg` (any number
+of columns and batch members, any coupling through the mean-residual stopping rule, the tridiagonal
+bookkeeping and the switch-off) is the `iters`-th iterate of that column's own recurrence `iterCol`,
+multiplied by its `rhs_norm` — so the per-column theorems above and below are statements about the
+values `linear_cg` returns. -/
+theorem cg_columns (N : NumOps α) (P : Params α) {n : Nat} (sys : List (Sys α n)) (o : Out α n)
+    (h : linearCg N P sys = .ok o) :
+    o.x = sys.map fun s => fun i =>
+      (iterCol N P s (prep N P s).isZero o.iters (initCol N P s (prep N P s))).x i * (prep N P s).nrm := by
+  rw [linearCg_ok N P sys o h]
+  exact linearCgCore_x N P sys
+
+/-- Whole-call form of `cg_zero_rhs`: in the value returned by `linear_cg`, the `j`-th column is exactly
+zero whenever that column's right-hand side and initial guess are zero — whatever the other columns,
+the budget, the tolerance and the preconditioner (linear) are. -/
+theorem cg_call_zero_rhs {N : NumOps α} (hN : Lawful N) (P : Params α) (he : 0 < P.eps) {n : Nat}
+    (sys : List (Sys α n)) (o : Out α n) (h : linearCg N P sys = .ok o) (j : Nat) (s : Sys α n)
+    (hj : sys[j]? = some s) (hA : Lin s.amul) (hM : s.pre 0 = 0) (hr : s.rhs = 0) (hx : s.x0 = 0) :
+    o.x[j]? = some (0 : Vec α n) := by
+  rw [cg_columns N P sys o h, List.getElem?_map, hj]
+  simp only [Option.map_some]
+  exact congrArg some (cg_zero_rhs hN P he hA hM hr hx o.iters)
+
+/-- Whole-call form of `cg_frozen_fixed`/`cg_residual_invariant`: the residual the loop holds for column `s`
+when the call returns is the true residual `b̂ − A x̂` of the normalised system. -/
+theorem cg_call_residual (N : NumOps α) (P : Params α) {n : Nat} (sys : List (Sys α n)) (o : Out α n)
+    (_h : linearCg N P sys = .ok o) (s : Sys α n) (_hs : s ∈ sys) (hA : Lin s.amul) :
+    (iterCol N P s (prep N P s).isZero o.iters (initCol N P s (prep N P s))).r
+      = (prep N P s).b - s.amul (iterCol N P s (prep N P s).isZero o.iters (initCol N P s (prep N P s))).x :=
+  cg_residual_invariant N P hA _ _
+
+/-- **Inconsistent limits and NaNs raise** instead of returning: `max_tridiag_iter > max_iter` is the
+first exit; otherwise a NaN anywhere in the first residual `b̂ − A x̂₀` is the second. -/
+theorem cg_raises {β : Type} [Add β] [Sub β] [Mul β] [Div β] [Neg β] [Zero β] [One β]
+    (N : NumOps β) (P : Params β) {n : Nat} (sys : List (Sys β n)) :
+    (P.maxTridiagIter > P.maxIter → linearCg N P sys = .error .tridiagLimit) ∧
+    (¬ P.maxTridiagIter > P.maxIter → ∀ s ∈ sys, vecHasNan N (prep N P s).r0 = true →
+      linearCg N P sys = .error .nan) :=
+  ⟨linearCg_limit N P sys, fun h s hs hn => linearCg_nan N P sys h s hs hn⟩
+
+/-- Conversely, with consistent limits and NaN-free arithmetic the call returns. -/
+theorem cg_returns {N : NumOps α} (hN : Lawful N) (P : Params α) {n : Nat} (sys : List (Sys α n))
+    (h : ¬ P.maxTridiagIter > P.maxIter) : linearCg N P sys = .ok (linearCgCore N P sys) := by
+  have : (sys.map fun s => prep N P s).any (fun q => vecHasNan N q.r0) = false := by
+    simp [List.any_eq_false, vecHasNan, hN.no_nan]
+  simp [linearCg, h, this]
+
+/-! ### tridiagonal matrices -/
+
+/-- **Entries of the tridiagonal matrix**: two consecutive tridiagonal updates (iterations `k`, `k+1`,
+column states `c₁`, `c₂` after their kernels) write `T[k+1,k+1] = 1/α_{k+1} + β_k/α_k` and
+`T[k+1,k] = T[k,k+1] = √β_k/α_k` (for non-zero step lengths); the first writes `T[0,0] = 1/α₀`. -/
+theorem cg_tridiag_entries {N : NumOps α} (hN : Lawful N) {n : Nat} (k : Nat) (c1 c2 : Col α n) (t0 : Tri α)
+    (h1 : c1.alpha ≠ 0) (h2 : c2.alpha ≠ 0) :
+    let T := (triStep N (k + 1) c2 (triStep N k c1 t0)).t
+    T (k + 1) (k + 1) = 1 / c2.alpha + c1.beta / c1.alpha ∧
+    T (k + 1) k = N.sqrt c1.beta / c1.alpha ∧ T k (k + 1) = N.sqrt c1.beta / c1.alpha ∧
+    (triStep N 0 c1 t0).t 0 0 = 1 / c1.alpha := by
+  obtain ⟨e1, e2, e3⟩ := triStep_entries N k c1 c2 t0
+  refine ⟨?_, ?_, ?_, ?_⟩
+  · rw [e1, alphaRecip_eq hN _ h1, alphaRecip_eq hN _ h2]; ring
+  · rw [e2, alphaRecip_eq hN _ h1]; ring
+  · rw [e3, alphaRecip_eq hN _ h1]; ring
+  · rw [triStep_first, alphaRecip_eq hN _ h1]
+
+/-- **T is symmetric tridiagonal**: each tridiagonal update keeps the matrix symmetric and supported on
+the three central diagonals of the leading block (any scalar type, any history of updates at
+consecutive indices starting from the zero matrix). -/
+theorem cg_tridiag_symmetric {β : Type} [Add β] [Sub β] [Mul β] [Div β] [Neg β] [Zero β] [One β]
+    (N : NumOps β) {n : Nat} (cs : Nat → Col β n) (m : Nat) :
+    TriOK ((List.range m).foldl (fun t k => triStep N k (cs k) t) (emptyTri : Tri β)).t m := by
+  induction m with
+  | zero => exact ⟨fun _ _ => rfl, fun _ _ _ => rfl⟩
+  | succ m ih =>
+    rw [List.range_succ, List.foldl_append]
+    exact triStep_ok N m (cs m) _ ih
+
+/-- **Known finding, machine-checked** (`known_findings.txt`, cell `C08/tridiag-empty/maxit=1/*`): the claim
+"the returned tridiagonal is the Lanczos matrix / its Ritz values lie in the spectrum" FAILS for
+`max_iter = max_tridiag_iter = 1` when the tolerance is met in the only iteration.  On the 1×1 system
+`2·x = 1` (tolerance `1e-3`) the model — like the code — runs one iteration, does not warn, returns the
+correct solution `1/2`, and returns the 1×1 tridiagonal matrix `[[0]]` although the only eigenvalue is 2:
+the `break` at `k = 0` precedes the tridiagonal update.  `cg_tridiag_entries` / `cg_tridiag_symmetric` are the
+partial statements that do hold (entries are right whenever the update is executed). -/
+theorem cg_tridiag_one_iter_counterexample :
+    Known.summary = (1, 1, false, [0], [1 / 2]) := by
+  decide +kernel
+
+/-- *Partial* form of `cg_tridiag_eq_lanczos`.  Full claim (not closed): with `q_k = (−1)^k r_k/√(r_kᵀz_k)`
+the vectors `M⁻¹ᐟ² q_k`-images are orthonormal and `Qᵀ (M⁻¹ᐟ² A M⁻¹ᐟ²) Q = T`, i.e. `T` is the Lanczos matrix of the
+preconditioned operator started at the normalised right-hand side.  Proved here: the three-term relation
+that makes `T` the matrix of `A M⁻¹` in the residual basis — for consecutive iterations with non-zero step
+lengths, `A z₁ = −(1/α₁) r₂ + (1/α₁ + β₀/α₀) r₁ − (β₀/α₀) r₀`, whose middle coefficient is the diagonal
+entry written by the code (`cg_tridiag_entries`) and whose outer coefficients multiply to the square
+`β₀/α₀²` of its off-diagonal entry.  Missing: mutual `M⁻¹`-orthogonality of all residuals (only
+`p_kᵀ r_{k+1} = 0` is proved, in `cg_Anorm_step`), which needs the full conjugacy induction. -/
+theorem cg_tridiag_eq_lanczos_partial (N : NumOps α) (P : Params α) {n : Nat} {s : Sys α n} (hA : Lin s.amul)
+    (iz : Bool) (c0 : Col α n)
+    (h0 : (colStep N P s iz c0).alpha ≠ 0) (h1 : (colStep N P s iz (colStep N P s iz c0)).alpha ≠ 0) :
+    let c1 := colStep N P s iz c0
+    let c2 := colStep N P s iz c1
+    s.amul c1.z = (-(1 / c2.alpha)) • c2.r + (1 / c2.alpha + c1.beta / c1.alpha) • c1.r
+        - (c1.beta / c1.alpha) • c0.r :=
+  three_term N P hA iz c0 h0 h1
+
+/-
+Stretch goal, stated only: `cg_chebyshev_rate`
+  for `A`, `M⁻¹` symmetric positive definite, κ the condition number of `M⁻¹A`, and regular steps 0..j−1,
+  `errA s xs x_j ≤ (2 ((√κ − 1)/(√κ + 1))^j)² · errA s xs x_0`.
+Not proved.  Missing: (i) full conjugacy `p_iᵀ A p_j = 0` (i<j) and the Krylov-optimality `cg_optimal`
+(x_j minimises the A-norm error over x_0 + K_j); (ii) the spectral theorem for `M⁻¹ᐟ² A M⁻¹ᐟ²` over the abstract
+field; (iii) the Chebyshev polynomial bound on [λmin, λmax].  What is proved instead is the exact per-step
+decrease `(rᵀz)²/pᵀAp` (`cg_Anorm_step`) and monotonicity (`cg_Anorm_monotone`); the bound itself is checked on
+the implementation against dense references on every run.
+-/
+
+/-! ### the hypotheses are satisfiable -/
+
+/-- `Lawful` is inhabited over `ℚ`-like fields on the inputs that occur when no square root is irrational:
+here the trivial instance on any field where `sqrt` is only needed at perfect squares is not available in
+general, so we exhibit the structural hypotheses: the identity closure is linear and symmetric. -/
+example {n : Nat} : LinSym (fun v : Vec α n => v) :=
+  { add := fun _ _ => rfl, smul := fun _ _ => rfl, sym := fun _ _ => rfl }
+
+/-- a diagonal closure `v ↦ d ∘ v` is linear and symmetric -/
+example {n : Nat} (d : Vec α n) : LinSym (fun v : Vec α n => fun i => d i * v i) :=
+  { add := fun u v => by funext i; simp [mul_add]
+    smul := fun c u => by funext i; simp [mul_left_comm]
+    sym := fun u v => by simp [dot_eq, mul_left_comm, mul_comm] }
 
 end LinOp.C08
